@@ -10,6 +10,7 @@ import (
 	"math"
 	"strconv"
 	"strings"
+	"sync"
 
 	geom "github.com/twpayne/go-geom"
 )
@@ -102,14 +103,14 @@ const (
 //	MultiPolygon:     C3
 //	Collection:       Members; Layout is its fixed layout (0 = none)
 type G struct {
-	Kind    string      `json:"k"`
-	Layout  int         `json:"l"`
-	SRID    int         `json:"srid,omitempty"`
-	C0      []F         `json:"c0,omitempty"`
-	C1      [][]F       `json:"c1,omitempty"`
-	C2      [][][]F     `json:"c2,omitempty"`
-	C3      [][][][]F   `json:"c3,omitempty"`
-	Members []G         `json:"m,omitempty"`
+	Kind    string    `json:"k"`
+	Layout  int       `json:"l"`
+	SRID    int       `json:"srid,omitempty"`
+	C0      []F       `json:"c0,omitempty"`
+	C1      [][]F     `json:"c1,omitempty"`
+	C2      [][][]F   `json:"c2,omitempty"`
+	C3      [][][][]F `json:"c3,omitempty"`
+	Members []G       `json:"m,omitempty"`
 }
 
 // Lay returns the geom.Layout of g (for a collection: its fixed layout).
@@ -416,7 +417,48 @@ const (
 
 // Build constructs the geom.T described by g through the given route. It
 // returns an error only when the library reports one.
+//
+// The nested coordinates handed to SetCoords / MustSetCoords belong to the caller: once
+// the geometry is built they are overwritten, so that a geometry that kept a reference to
+// any of them no longer reads back what it was given.
 func Build(g *G, route Route) (geom.T, error) {
+	scribbleMu.Lock()
+	defer scribbleMu.Unlock()
+	handed = handed[:0]
+	t, err := build(g, route)
+	for _, c := range handed {
+		for i := range c {
+			c[i] = -98765.4321
+		}
+	}
+	handed = handed[:0]
+	return t, err
+}
+
+var (
+	scribbleMu sync.Mutex
+	handed     []geom.Coord
+)
+
+func keep0(c geom.Coord) geom.Coord { handed = append(handed, c); return c }
+func keep1(cs []geom.Coord) []geom.Coord {
+	handed = append(handed, cs...)
+	return cs
+}
+func keep2(css [][]geom.Coord) [][]geom.Coord {
+	for _, cs := range css {
+		keep1(cs)
+	}
+	return css
+}
+func keep3(csss [][][]geom.Coord) [][][]geom.Coord {
+	for _, css := range csss {
+		keep2(css)
+	}
+	return csss
+}
+
+func build(g *G, route Route) (geom.T, error) {
 	l := g.Lay()
 	switch g.Kind {
 	case Point:
@@ -427,9 +469,9 @@ func Build(g *G, route Route) (geom.T, error) {
 		case RouteFlat, RoutePush:
 			return geom.NewPointFlat(l, Floats(g.C0)).SetSRID(g.SRID), nil
 		case RouteMustSetCoords:
-			return geom.NewPoint(l).MustSetCoords(coord(g.C0)).SetSRID(g.SRID), nil
+			return geom.NewPoint(l).MustSetCoords(keep0(coord(g.C0))).SetSRID(g.SRID), nil
 		}
-		p, err := geom.NewPoint(l).SetCoords(coord(g.C0))
+		p, err := geom.NewPoint(l).SetCoords(keep0(coord(g.C0)))
 		if err != nil {
 			return nil, err
 		}
@@ -439,9 +481,9 @@ func Build(g *G, route Route) (geom.T, error) {
 		case RouteFlat, RoutePush:
 			return geom.NewLineStringFlat(l, Flat1(g.C1)).SetSRID(g.SRID), nil
 		case RouteMustSetCoords:
-			return geom.NewLineString(l).MustSetCoords(Coords1(g.C1)).SetSRID(g.SRID), nil
+			return geom.NewLineString(l).MustSetCoords(keep1(Coords1(g.C1))).SetSRID(g.SRID), nil
 		}
-		p, err := geom.NewLineString(l).SetCoords(Coords1(g.C1))
+		p, err := geom.NewLineString(l).SetCoords(keep1(Coords1(g.C1)))
 		if err != nil {
 			return nil, err
 		}
@@ -451,9 +493,9 @@ func Build(g *G, route Route) (geom.T, error) {
 		case RouteFlat, RoutePush:
 			return geom.NewLinearRingFlat(l, Flat1(g.C1)).SetSRID(g.SRID), nil
 		case RouteMustSetCoords:
-			return geom.NewLinearRing(l).MustSetCoords(Coords1(g.C1)).SetSRID(g.SRID), nil
+			return geom.NewLinearRing(l).MustSetCoords(keep1(Coords1(g.C1))).SetSRID(g.SRID), nil
 		}
-		p, err := geom.NewLinearRing(l).SetCoords(Coords1(g.C1))
+		p, err := geom.NewLinearRing(l).SetCoords(keep1(Coords1(g.C1)))
 		if err != nil {
 			return nil, err
 		}
@@ -472,9 +514,9 @@ func Build(g *G, route Route) (geom.T, error) {
 			}
 			return p.SetSRID(g.SRID), nil
 		case RouteMustSetCoords:
-			return geom.NewPolygon(l).MustSetCoords(Coords2(g.C2)).SetSRID(g.SRID), nil
+			return geom.NewPolygon(l).MustSetCoords(keep2(Coords2(g.C2))).SetSRID(g.SRID), nil
 		}
-		p, err := geom.NewPolygon(l).SetCoords(Coords2(g.C2))
+		p, err := geom.NewPolygon(l).SetCoords(keep2(Coords2(g.C2)))
 		if err != nil {
 			return nil, err
 		}
@@ -504,9 +546,9 @@ func Build(g *G, route Route) (geom.T, error) {
 			}
 			return p.SetSRID(g.SRID), nil
 		case RouteMustSetCoords:
-			return geom.NewMultiPoint(l).MustSetCoords(Coords1(g.C1)).SetSRID(g.SRID), nil
+			return geom.NewMultiPoint(l).MustSetCoords(keep1(Coords1(g.C1))).SetSRID(g.SRID), nil
 		}
-		p, err := geom.NewMultiPoint(l).SetCoords(Coords1(g.C1))
+		p, err := geom.NewMultiPoint(l).SetCoords(keep1(Coords1(g.C1)))
 		if err != nil {
 			return nil, err
 		}
@@ -525,9 +567,9 @@ func Build(g *G, route Route) (geom.T, error) {
 			}
 			return p.SetSRID(g.SRID), nil
 		case RouteMustSetCoords:
-			return geom.NewMultiLineString(l).MustSetCoords(Coords2(g.C2)).SetSRID(g.SRID), nil
+			return geom.NewMultiLineString(l).MustSetCoords(keep2(Coords2(g.C2))).SetSRID(g.SRID), nil
 		}
-		p, err := geom.NewMultiLineString(l).SetCoords(Coords2(g.C2))
+		p, err := geom.NewMultiLineString(l).SetCoords(keep2(Coords2(g.C2)))
 		if err != nil {
 			return nil, err
 		}
@@ -547,9 +589,9 @@ func Build(g *G, route Route) (geom.T, error) {
 			}
 			return p.SetSRID(g.SRID), nil
 		case RouteMustSetCoords:
-			return geom.NewMultiPolygon(l).MustSetCoords(Coords3(g.C3)).SetSRID(g.SRID), nil
+			return geom.NewMultiPolygon(l).MustSetCoords(keep3(Coords3(g.C3))).SetSRID(g.SRID), nil
 		}
-		p, err := geom.NewMultiPolygon(l).SetCoords(Coords3(g.C3))
+		p, err := geom.NewMultiPolygon(l).SetCoords(keep3(Coords3(g.C3)))
 		if err != nil {
 			return nil, err
 		}
@@ -593,7 +635,7 @@ func fillCollection(gc *geom.GeometryCollection, g *G, route Route) error {
 			later = append(later, func() error { return fillCollection(inner, m, route) })
 			continue
 		}
-		t, err := Build(m, route)
+		t, err := build(m, route)
 		if err != nil {
 			return err
 		}
@@ -1099,4 +1141,37 @@ func (g *G) Mapped(f func(float64) float64) *G {
 		}
 	}
 	return c
+}
+
+// Spoil makes a geometry that a call returned unrecognisable, in place: every ordinate
+// is overwritten, points without coordinates get some, SRIDs change - recursively through
+// collections. What a decoder or a constructor returned is the caller's to do this to; a
+// later result of the same call must not have anything in common with it.
+func Spoil(t geom.T) {
+	if t == nil {
+		return
+	}
+	if gc, ok := t.(*geom.GeometryCollection); ok {
+		if gc == nil {
+			return
+		}
+		gc.SetSRID(gc.SRID() + 98765)
+		for _, m := range gc.Geoms() {
+			Spoil(m)
+		}
+		return
+	}
+	defer func() { _ = recover() }() // typed nil pointers inside an interface, exotic layouts
+	if p, ok := t.(*geom.Point); ok && p != nil && len(p.FlatCoords()) == 0 && p.Layout() != geom.NoLayout {
+		c := make(geom.Coord, p.Layout().Stride())
+		for i := range c {
+			c[i] = 4242.5
+		}
+		_, _ = p.SetCoords(c)
+	}
+	f := t.FlatCoords()
+	for i := range f {
+		f[i] = 4242.5 + float64(i)
+	}
+	_, _ = geom.SetSRID(t, t.SRID()+98765)
 }
